@@ -27,7 +27,7 @@ from concurrent.futures import ProcessPoolExecutor, as_completed
 import multiprocessing as _mp
 
 VERIF = os.path.dirname(os.path.dirname(os.path.abspath(__file__)))
-RUN_WALL_LIMIT = 30.0
+RUN_WALL_LIMIT = 60.0
 
 
 def H(*parts):
